@@ -329,3 +329,29 @@ def write_evidence(prop, tier, seed, coverage, wall_s, violations, assumptions):
     with open(os.path.join(VERIF, "evidence", prop + ".json"), "w") as f:
         json.dump(ev, f, indent=1, ensure_ascii=False)
     return ev
+
+
+# ----------------------------------------------------------------------------
+# binaries of the workspace (CLI, server): built from a scratch copy of /repo's working tree,
+# because any cargo command run inside the /repo workspace rewrites /repo/Cargo.lock
+
+
+def build_workspace_bin(pkg):
+    """returns (path to the release binary or None, build output)"""
+    import shutil
+    import tempfile
+    with Lock("cargo-ws.lock"):
+        src = tempfile.mkdtemp(prefix="svgbob_ws_", dir="/tmp")
+        try:
+            rc, out = sh(["rsync", "-a", "--exclude", "target", "--exclude", ".git", REPO + "/", src + "/"], timeout=600)
+            if rc != 0:
+                return None, out
+            tgt = os.path.join(BUILD, "ws_target")
+            rc, out = sh(["cargo", "build", "--release", "--offline", "-p", pkg], cwd=src,
+                         env={"CARGO_TARGET_DIR": tgt}, timeout=3600)
+            if rc != 0:
+                return None, out
+            binp = os.path.join(tgt, "release", pkg)
+            return (binp if os.path.exists(binp) else None), out
+        finally:
+            shutil.rmtree(src, ignore_errors=True)
